@@ -21,6 +21,14 @@ def matches_any(s, regs):
 
 
 # ---------------------------------------------------------------------------
+def allowed_here(prog, caller, regs):
+    """the caller matches one of the allowed patterns - or it hosts the code of a reviewed private function that matched and was folded into
+    it (Program.folded)"""
+    if matches_any(caller, regs):
+        return True
+    return any(host == caller and matches_any(f, regs) for f, host in prog.folded().items())
+
+
 def wmc(rule, prog, callee_regex, allowed, floor=1, what=None, skip_callers=None):
     """who-may-call: every call whose callee path matches callee_regex sits in a function (closures are
     attributed to their enclosing function) whose path matches one of `allowed`."""
@@ -34,7 +42,7 @@ def wmc(rule, prog, callee_regex, allowed, floor=1, what=None, skip_callers=None
             continue
         n += 1
         key = "%s -> %s" % (caller, model.short_callee(s.term.callee_path()))
-        if matches_any(caller, allowed_r):
+        if allowed_here(prog, caller, allowed_r):
             rule.ok(key, "call allowed here", s.loc)
         else:
             rule.violation(key, "call to %s from %s, which is outside the allowed set %s" % (
@@ -134,7 +142,7 @@ def wwf(rule, prog, owner_adt, field, allowed, kinds=("assign", "assign_sub", "b
     for a in acc:
         caller = root_path(a["func"])
         key = "%s writes %s.%s (%s)" % (caller, owner_adt.split("::")[-1], field, a["kind"])
-        if not matches_any(caller, allowed_r):
+        if not allowed_here(prog, caller, allowed_r):
             rule.violation(key, "%s of %s.%s in %s, outside the allowed writers %s" % (
                 a["kind"], owner_adt, field, caller, allowed), loc(a["sp"]))
             continue
